@@ -319,3 +319,75 @@ Example ext_verdicts :
   store_py (PY rf_py) 15 N_SETITEM C_INT = Err /\ store_c (RT rf_rt) 15 N_SETITEM C_INT = Err /\
   is_err (store_py (PY rf_py) C_LIST N_SETITEM C_INT) = false /\ is_err (store_c (RT rf_rt) C_LIST N_SETITEM C_INT) = false.
 Proof. vm_compute. repeat split; reflexivity. Qed.
+
+(* ========================================================================================== *)
+(* Extension C14d (coq/Ops/Derived.v): operands that are instances of user classes DERIVING FROM A BUILTIN head
+   (class M(int), class L(list), class D(dict) ..., any number of user classes between the class and the head, any
+   subset of dunders overridden).  PYD / RTD: this run's regenerated rows with the acceptance rule "an instance of
+   a class derived from B is accepted wherever a B is" (mk_table_d), any user part.  dbase: the builtin head an
+   operand is or derives from. *)
+From PV Require Import Ops.Derived Ops.DerivedProofs Ops.DerivedClosed.
+
+(* Closed obligation, re-decided by vm_compute on every run: on two builtin heads, when neither option of pytype's
+   dispatch succeeds, neither succeeds at run time -- WITHOUT the same-type shortcut of binary_op1 (the reflected
+   dunder of B is tried on a B and an instance of a subclass of B). *)
+Theorem derived_tables_faithful : dpair_faithful py_rows rt_rows = true.
+Proof. exact dpair_faithful_holds. Qed.
+Print Assumptions derived_tables_faithful.
+
+(* General form: any builtin rows passing the closed checks, any user part. *)
+Theorem derived_reported_is_real_general : forall (rowsT rowsR : list brow) (UT UR : table) x n y,
+  shape_ok rowsT rowsR = true -> dpair_faithful rowsT rowsR = true -> ucol_faithful rowsT rowsR = true ->
+  py_total UT ->
+  derived_ok (length rowsT) UR UT x -> derived_ok (length rowsT) UR UT y ->
+  In n binop_names ->
+  excl_fp_bin (dbase (length rowsT) UT x) n (dbase (length rowsT) UT y) = false ->
+  binop_py (mk_table_d rowsT UT) x n y = Err -> binop_c (mk_table_d rowsR UR) x n y = Err.
+Proof. exact derived_reported_is_real_lemma. Qed.
+Print Assumptions derived_reported_is_real_general.
+
+(* No false positive on the 12 binary operators and the subscript when each operand is a builtin value or an instance
+   of a class derived from a builtin head (minus F1 on dict and its subclasses).  PARTIAL: py_total -- the dunders
+   written in the user classes are unannotated defs (pytype accepts any argument; at run time they may still answer
+   NotImplemented).  With an annotated dunder the pointwise disagreements of builtins.pytd (no float.__radd__ ...)
+   become visible:  class D(int): def __add__(self, o: str) ...;  D() + 1.5  -- outside the generated grammar. *)
+Theorem derived_reported_is_real_partial : forall (UT UR : table) x n y,
+  py_total UT -> derived_class_ok UR UT x -> derived_class_ok UR UT y ->
+  In n binop_names -> excl_fp_bin (dbase c14_nb UT x) n (dbase c14_nb UT y) = false ->
+  binop_py (PYD UT) x n y = Err -> binop_c (RTD UR) x n y = Err.
+Proof. exact derived_reported_is_real_inst. Qed.
+Print Assumptions derived_reported_is_real_partial.
+
+(* Non-vacuity:  class DI(int): pass      class DIR(int): def __radd__(self, o) ...     class DL(list): pass *)
+Definition ex_d : table := user_table c14_nb [
+  user_cls_d 14 [14; 1; 0] [14; 1] [];
+  user_cls_d 15 [15; 1; 0] [15; 1] [(1, (false, acc_all))];
+  user_cls_d 16 [16; 8; 0] [16; 8] []].
+
+Example ex_d_hyp : py_total ex_d /\ derived_class_ok ex_d ex_d 14 /\ derived_class_ok ex_d ex_d 15 /\
+                   derived_class_ok ex_d ex_d 16.
+Proof.
+  split.
+  - intros k n e a H. unfold ex_d, user_table in H.
+    destruct (k - c14_nb) as [|[|[|[|j]]]]; cbn -[Nat.eqb] in H;
+      repeat match type of H with context [?q =? n] => destruct (q =? n); cbn -[Nat.eqb] in H end;
+      try discriminate; inversion H; reflexivity.
+  - unfold derived_class_ok, derived_ok, dshape, c14_nb. split; [|split].
+    + intros _. exists [14], 1. repeat split; try reflexivity; try (repeat constructor); intros; apply own_sim_refl.
+    + intros _. exists [15], 1. repeat split; try reflexivity; try (repeat constructor); intros; apply own_sim_refl.
+    + intros _. exists [16], 8. repeat split; try reflexivity; try (repeat constructor); intros; apply own_sim_refl.
+Qed.
+
+Example ex_d_verdicts :
+  (* DI(1) + "a": error on both sides;  DI(1) + 1.5: fine on both (int.__add__ in the stub, float.__radd__ at run time) *)
+  binop_py (PYD ex_d) 14 N_ADD C_STR = Err /\ binop_c (RTD ex_d) 14 N_ADD C_STR = Err /\
+  is_err (binop_py (PYD ex_d) 14 N_ADD C_FLOAT) = false /\ is_err (binop_c (RTD ex_d) 14 N_ADD C_FLOAT) = false /\
+  (* 1 + DIR(1): DIR.__radd__ first on both sides (subclass priority / _overrides);  1 + DI(1): int.__add__ *)
+  binop_py (PYD ex_d) C_INT N_ADD 15 = Ok 15 1 /\ binop_c (RTD ex_d) C_INT N_ADD 15 = Ok 15 1 /\
+  binop_py (PYD ex_d) C_INT N_ADD 14 = Ok C_INT N_ADD /\ binop_c (RTD ex_d) C_INT N_ADD 14 = Ok C_INT N_ADD /\
+  (* [1] + DL([1]), DL([1])[1]: fine;  DL([1]) + 1, DL([1])["a"], DI(1)[1]: error on both sides *)
+  is_err (binop_py (PYD ex_d) C_LIST N_ADD 16) = false /\ is_err (binop_c (RTD ex_d) C_LIST N_ADD 16) = false /\
+  is_err (binop_py (PYD ex_d) 16 N_GETITEM C_INT) = false /\
+  binop_py (PYD ex_d) 16 N_ADD C_INT = Err /\ binop_c (RTD ex_d) 16 N_ADD C_INT = Err /\
+  binop_py (PYD ex_d) 16 N_GETITEM C_STR = Err /\ binop_py (PYD ex_d) 14 N_GETITEM C_INT = Err.
+Proof. vm_compute. repeat split; reflexivity. Qed.
